@@ -372,6 +372,46 @@ def productive_cyclic_program(rng, max_nodes=10):
     return list(kinds) + [('T', s, t) for s, t in edges], 0
 
 
+def grammar_like_program(rng, max_nt=3):
+    """graphs shaped like converted grammars / schemas: choose-one decisions (non-terminals) over do-all decisions
+    (sequences) whose items are valid leaves -- the same leaf attached up to three times, as a repetition does --
+    and references to non-terminals, recursive ones included; every non-terminal has one alternative made of leaves
+    only (at a random position, often after the recursive alternatives), so every decision has a valid completion.
+    Invalid leaves stand as alternatives of their own."""
+    kinds, edges = [], []
+
+    def new(k):
+        kinds.append(k)
+        return len(kinds) - 1
+    root = new(('D', rng.random() < 0.5, False, None))
+    nts = [new(('D', False, rng.random() < 0.5, None)) for _ in range(rng.randint(1, max_nt))]
+    edges.append((root, nts[0]))
+    for nt in nts:
+        n_alt = rng.randint(1, 3)
+        base_pos = rng.choice([n_alt, n_alt, rng.randint(0, n_alt)])
+        for a in range(n_alt + 1):
+            seq = new(('D', True, rng.random() < 0.3, None))
+            edges.append((nt, seq))
+            if a == base_pos:
+                leaf = new(('L', True, None))
+                for _ in range(rng.choice([1, 2, 2, 3])):
+                    edges.append((seq, leaf))
+                if rng.random() < 0.3:
+                    edges.append((seq, new(('L', True, None))))
+            else:
+                for _ in range(rng.randint(1, 3)):
+                    m = rng.random()
+                    if m < 0.45:
+                        leaf = new(('L', True, None))
+                        for _ in range(rng.choice([1, 1, 2])):
+                            edges.append((seq, leaf))
+                    else:
+                        edges.append((seq, rng.choice(nts)))
+        if rng.random() < 0.3:
+            edges.append((nt, new(('L', False, None))))
+    return list(kinds) + [('T', s, t) for s, t in edges], root
+
+
 def complete_paths(ops, root, depth=6, limit=40):
     """enumerate complete paths (index lists) up to a number of choices, by simulation"""
     kinds, outs = _tables(ops)
